@@ -181,6 +181,19 @@ def judge(ctx, inst, label, spaces, ret, T, MF, MR):
                         lam = float(np.dot(g[nz], wts[nz]) / np.dot(wts[nz], wts[nz]))
                         if lam <= 0 or relerr(g, lam * wts) > 1e-8:
                             bad.append(('Definition.chi.weights', {'pair': [a, b], 'observed': g.tolist(), 'weights': wts.tolist(), 'lambda': lam}))
+                else:
+                    # unequal volumes, extrapolated: the k-independent prefactor lambda is taken from the curve of the same
+                    # instance (a fresh object), the value must be the quadratic through lambda * weights at the three lowest k
+                    wts = np.array([q(c) for c in label['weights'][i][j]])
+                    p2, T2 = make_prism(inst)
+                    populate(p2, T2, inst, 'chi', {'H': 'F', 'C': 'F', 'W': 'F'}, MF, MR)
+                    curve = np.atleast_1d(np.asarray(call(p2, 'chi', 'extrapolate=False')[a, b], dtype=float))
+                    nz = np.abs(wts) > 1e-12
+                    if nz.any() and curve.shape == wts.shape:
+                        lam = float(np.dot(curve[nz], wts[nz]) / np.dot(wts[nz], wts[nz]))
+                        want = lam * (3 * wts[0] - 3 * wts[1] + wts[2])
+                        if abs(float(g[0]) - want) > 1e-8 * max(1.0, abs(want), float(np.max(np.abs(lam * wts)))):
+                            bad.append(('Definition.chi.extrapolated', {'pair': [a, b], 'observed': float(g[0]), 'expected': want, 'lambda': lam}))
     return bad
 
 
